@@ -2,6 +2,20 @@
 // documents into nil, empty and pre-filled targets (standalone and as struct fields) and
 // records what came out, mapped to indices of the element universe.
 //
+// Besides the document the set's own Marshal produced (whose element order is the runtime's map
+// order of that run) the same document is decoded again with its ELEMENT DOCUMENTS RE-ORDERED
+// (ascending, descending and one seeded shuffle of the universe indices): the raw element
+// encodings are taken from the real document (json.RawMessage / yaml.Node), only their order
+// changes — every such document is an encoding the set could have produced in another run, and
+// decoding must yield the same membership.  This makes order-dependent defects (decoding of
+// element k depending on element k-1) deterministic to find.
+//
+// Element types: string, int, float, bool, a plain struct, and struct types whose decoding INTO
+// AN EXISTING VALUE differs from decoding into a fresh one: omitempty fields (opt), nested and
+// embedded structs with omitempty fields (nested), arrays of such structs (arr), an interface
+// field (iface) and a type with its own Marshal/Unmarshal methods that omit zero fields and
+// merge on decoding (custom).
+//
 //	c17 -seed N -out PREFIX -mode random|corpus -n COUNT
 package main
 
@@ -9,8 +23,10 @@ import (
 	"bytes"
 	"encoding/json"
 	"flag"
+	"fmt"
 	"math"
 	"math/rand/v2"
+	"os"
 	"sort"
 	"strings"
 
@@ -24,6 +40,91 @@ import (
 type pt struct {
 	A int    `json:"a" yaml:"a"`
 	B string `json:"b" yaml:"b"`
+}
+
+// opt: every field but Name may be left out of the encoding.
+type opt struct {
+	Name   string `json:"name" yaml:"name"`
+	Weight int    `json:"weight,omitempty" yaml:"weight,omitempty"`
+	Tag    string `json:"tag,omitempty" yaml:"tag,omitempty"`
+	On     bool   `json:"on,omitempty" yaml:"on,omitempty"`
+}
+
+type inner struct {
+	X int    `json:"x,omitempty" yaml:"x,omitempty"`
+	Y string `json:"y,omitempty" yaml:"y,omitempty"`
+}
+
+type Emb struct {
+	Z int `json:"z,omitempty" yaml:"z,omitempty"`
+}
+
+type nested struct {
+	ID  int   `json:"id" yaml:"id"`
+	In  inner `json:"in" yaml:"in"`
+	Emb `yaml:",inline"`
+}
+
+type optS struct {
+	A int    `json:"a,omitempty" yaml:"a,omitempty"`
+	B string `json:"b,omitempty" yaml:"b,omitempty"`
+}
+
+type arr [2]optS
+
+type iface struct {
+	K string `json:"k" yaml:"k"`
+	V any    `json:"v,omitempty" yaml:"v,omitempty"`
+}
+
+// cust encodes itself as an object that lists only its non-zero fields and, on decoding, sets
+// only the fields the object lists (a fresh value therefore round-trips).
+type cust struct{ A, B int }
+
+func (c cust) asMap() map[string]int {
+	m := map[string]int{}
+	if c.A != 0 {
+		m["a"] = c.A
+	}
+	if c.B != 0 {
+		m["b"] = c.B
+	}
+	return m
+}
+
+func (c *cust) fromMap(m map[string]int) {
+	if v, ok := m["a"]; ok {
+		c.A = v
+	}
+	if v, ok := m["b"]; ok {
+		c.B = v
+	}
+}
+
+func (c cust) MarshalJSON() ([]byte, error) { return json.Marshal(c.asMap()) }
+func (c *cust) UnmarshalJSON(d []byte) error {
+	var m map[string]int
+	if err := json.Unmarshal(d, &m); err != nil {
+		return err
+	}
+	c.fromMap(m)
+	return nil
+}
+func (c cust) MarshalYAML() (any, error) { return c.asMap(), nil }
+func (c *cust) UnmarshalYAML(n *yaml.Node) error {
+	var m map[string]int
+	if err := n.Decode(&m); err != nil {
+		return err
+	}
+	c.fromMap(m)
+	return nil
+}
+
+type perm struct {
+	Order  []int  `json:"order"`
+	Doc    string `json:"doc"`
+	DecErr string `json:"dec_err,omitempty"`
+	Result []int  `json:"result"`
 }
 
 type jcase struct {
@@ -43,6 +144,9 @@ type jcase struct {
 	DecErr   string `json:"dec_err,omitempty"`
 	Result   []int  `json:"result"`
 	PlainErr string `json:"plain_decode_err,omitempty"`
+	Perms    []perm `json:"perms,omitempty"`
+	PermSeed uint64 `json:"perm_seed"`
+	PermNote string `json:"perm_note,omitempty"`
 }
 
 type wrap[T comparable] struct {
@@ -137,6 +241,17 @@ func one[T comparable](c *jcase, univ []T) {
 	}
 	c.Listing = indices(univ, plain)
 	// decode into the target
+	res, derr := decodeInto(c, data, t)
+	c.DecErr = derr
+	c.Result = indices(univ, res)
+	// the same document with its element documents in other orders
+	reorder(c, univ, data)
+}
+
+// decodeInto decodes the document into (a set with the members of) t and returns the members afterwards.
+func decodeInto[T comparable](c *jcase, data []byte, t set.Set[T]) ([]T, string) {
+	yml := c.Codec == "yaml"
+	var err error
 	if c.Field {
 		w := wrap[T]{S: t}
 		if yml {
@@ -153,9 +268,141 @@ func one[T comparable](c *jcase, univ []T) {
 		}
 	}
 	if err != nil {
-		c.DecErr = err.Error()
+		return t.Slice(), err.Error()
 	}
-	c.Result = indices(univ, t.Slice())
+	return t.Slice(), ""
+}
+
+// reorder takes the element documents of the real encoding, identifies each (decoded alone,
+// into a fresh value, by the plain library), and decodes re-assembled documents that list them
+// in ascending, descending and one seeded-shuffle order of their universe indices.
+func reorder[T comparable](c *jcase, univ []T, data []byte) {
+	index := make(map[T]int, len(univ))
+	for i, u := range univ {
+		index[u] = i
+	}
+	yml := c.Codec == "yaml"
+	type el struct {
+		idx  int
+		raw  json.RawMessage
+		node *yaml.Node
+	}
+	var els []el
+	var root yaml.Node
+	var seq *yaml.Node
+	if yml {
+		if err := yaml.Unmarshal(data, &root); err != nil || root.Kind != yaml.DocumentNode || len(root.Content) != 1 {
+			c.PermNote = "document does not parse as one YAML document"
+			return
+		}
+		seq = root.Content[0]
+		if c.Field {
+			if seq.Kind != yaml.MappingNode || len(seq.Content) != 2 {
+				c.PermNote = "struct field document is not a one-key mapping"
+				return
+			}
+			seq = seq.Content[1]
+		}
+		if seq.Kind != yaml.SequenceNode {
+			return // null / scalar: nothing to re-order
+		}
+		for _, n := range seq.Content {
+			var x T
+			if err := n.Decode(&x); err != nil {
+				c.PermNote = "element document does not decode alone: " + err.Error()
+				return
+			}
+			k, ok := index[x]
+			if !ok {
+				c.PermNote = "element document decodes to a value outside the universe"
+				return
+			}
+			els = append(els, el{idx: k, node: n})
+		}
+	} else {
+		var raws []json.RawMessage
+		var err error
+		if c.Field {
+			var w struct {
+				S []json.RawMessage `json:"s"`
+			}
+			err = json.Unmarshal(data, &w)
+			raws = w.S
+		} else {
+			err = json.Unmarshal(data, &raws)
+		}
+		if err != nil {
+			c.PermNote = "document is not an array: " + err.Error()
+			return
+		}
+		for _, raw := range raws {
+			var x T
+			if err := json.Unmarshal(raw, &x); err != nil {
+				c.PermNote = "element document does not decode alone: " + err.Error()
+				return
+			}
+			k, ok := index[x]
+			if !ok {
+				c.PermNote = "element document decodes to a value outside the universe"
+				return
+			}
+			els = append(els, el{idx: k, raw: raw})
+		}
+	}
+	if len(els) < 2 {
+		return
+	}
+	asc := append([]el(nil), els...)
+	sort.SliceStable(asc, func(i, j int) bool { return asc[i].idx < asc[j].idx })
+	desc := make([]el, len(asc))
+	for i := range asc {
+		desc[len(asc)-1-i] = asc[i]
+	}
+	shuf := append([]el(nil), asc...)
+	pr := gal.NewRand(c.PermSeed)
+	pr.Shuffle(len(shuf), func(i, j int) { shuf[i], shuf[j] = shuf[j], shuf[i] })
+	for _, order := range [][]el{asc, desc, shuf} {
+		var doc []byte
+		if yml {
+			seq.Content = seq.Content[:0:0]
+			for _, e := range order {
+				seq.Content = append(seq.Content, e.node)
+			}
+			var err error
+			doc, err = yaml.Marshal(&root)
+			if err != nil {
+				c.PermNote = "re-assembled document does not encode: " + err.Error()
+				return
+			}
+		} else {
+			var b bytes.Buffer
+			if c.Field {
+				b.WriteString(`{"s":`)
+			}
+			b.WriteByte('[')
+			for i, e := range order {
+				if i > 0 {
+					b.WriteByte(',')
+				}
+				b.Write(e.raw)
+			}
+			b.WriteByte(']')
+			if c.Field {
+				b.WriteByte('}')
+			}
+			doc = b.Bytes()
+		}
+		var t set.Set[T]
+		if !c.TgtNil {
+			t = set.Make(pick(univ, c.Tgt)...)
+		}
+		res, derr := decodeInto(c, doc, t)
+		p := perm{Doc: string(doc), DecErr: derr, Result: indices(univ, res)}
+		for _, e := range order {
+			p.Order = append(p.Order, e.idx)
+		}
+		c.Perms = append(c.Perms, p)
+	}
 }
 
 var strUniv = []string{"", "a", "A", "é", "日本", "true", "null", "1", "1.5", "~", "a b", " lead", "trail ", "x: y",
@@ -188,20 +435,63 @@ func universe(elem string, n int, c *jcase) {
 		one(c, u)
 	case "bool":
 		one(c, []bool{false, true}[:n])
-	default:
+	case "opt": // consecutive indices alternate between present and omitted optional fields
+		u := make([]opt, n)
+		for i := range u {
+			u[i] = opt{Weight: []int{5, 0, 7}[i%3], Name: []string{"a", "", "b c"}[(i/3)%3], Tag: []string{"", "t"}[(i/9)%2], On: (i/18)%2 == 1}
+		}
+		one(c, u)
+	case "nested":
+		u := make([]nested, n)
+		for i := range u {
+			u[i] = nested{In: inner{X: []int{3, 0, 4}[i%3], Y: []string{"", "y"}[(i/9)%2]}, ID: (i / 3) % 3, Emb: Emb{Z: []int{0, 9}[(i/18)%2]}}
+		}
+		one(c, u)
+	case "arr":
+		u := make([]arr, n)
+		mk := func(k int) optS { return optS{A: []int{1, 0}[k%2], B: []string{"", "b"}[k/2]} }
+		for i := range u {
+			u[i] = arr{mk(i % 4), mk((i / 4) % 4)}
+		}
+		one(c, u)
+	case "iface":
+		u := make([]iface, n)
+		for i := range u {
+			u[i] = iface{V: []any{"x", nil, true, 0.5}[i%4], K: []string{"a", "b", ""}[(i/4)%3]}
+		}
+		one(c, u)
+	case "custom":
+		u := make([]cust, n)
+		for i := range u {
+			u[i] = cust{A: []int{2, 0, 1, 3}[i%4], B: []int{0, 5, 6, 7}[(i/4)%4]}
+		}
+		one(c, u)
+	case "struct":
 		u := make([]pt, n)
 		for i := range u {
 			u[i] = pt{A: i / 3, B: []string{"", "x", "null"}[i%3]}
 		}
 		one(c, u)
+	default:
+		panic("unknown element type " + elem)
 	}
 }
+
+// maxUniverse is the largest universe of distinct values each element type offers.
+var maxUniverse = map[string]int{"string": len(strUniv), "bool": 2, "int": 50, "float": 50, "struct": 50,
+	"opt": 36, "nested": 36, "arr": 16, "iface": 12, "custom": 16}
+
+// mergeable lists the element types whose decoding into an existing value differs from decoding into a fresh one.
+var mergeable = []string{"opt", "nested", "arr", "iface", "custom"}
 
 func galInts(a []int) string {
 	return gal.ListOf(a, func(i int) string { return gal.Z(int64(i)) })
 }
 
 func emit(out *gal.Out, c jcase) {
+	if c.N > maxUniverse[c.Elem] {
+		panic(fmt.Sprintf("universe of %s has only %d values", c.Elem, maxUniverse[c.Elem]))
+	}
 	universe(c.Elem, c.N, &c)
 	univ := make([]int, c.N)
 	for i := range univ {
@@ -216,7 +506,10 @@ func emit(out *gal.Out, c jcase) {
 	g := "{| cc_yaml := " + gal.Bool(c.Codec == "yaml") + "; cc_univ := " + galInts(univ) +
 		"; cc_src := " + galInts(c.Src) + "; cc_src_nil := " + gal.Bool(c.SrcNil) + "; cc_tgt := " + tgt +
 		"; cc_enc_null := " + gal.Bool(c.EncNull) + "; cc_enc_listing := " + galInts(c.Listing) +
-		"; cc_dec_err := " + gal.Bool(decErr) + "; cc_result := " + galInts(c.Result) + " |}"
+		"; cc_dec_err := " + gal.Bool(decErr) + "; cc_result := " + galInts(c.Result) +
+		"; cc_perms := " + gal.ListOf(c.Perms, func(p perm) string {
+		return gal.Pair(galInts(p.Order), gal.Pair(gal.Bool(p.DecErr != ""), galInts(p.Result)))
+	}) + " |}"
 	out.Case(g, c)
 }
 
@@ -234,15 +527,14 @@ func subset(r *rand.Rand, n, max int, repeats bool) []int {
 }
 
 func randomCase(r *rand.Rand, out *gal.Out) {
-	elems := []string{"string", "string", "int", "float", "bool", "struct"}
-	c := jcase{Kind: "random", Elem: elems[r.IntN(len(elems))], Codec: []string{"json", "yaml"}[r.IntN(2)], Field: r.IntN(3) == 0}
+	elems := []string{"string", "string", "int", "float", "bool", "struct", "opt", "opt", "nested", "arr", "iface", "custom"}
+	c := jcase{Kind: "random", Elem: elems[r.IntN(len(elems))], Codec: []string{"json", "yaml"}[r.IntN(2)], Field: r.IntN(3) == 0,
+		PermSeed: r.Uint64()}
 	switch c.Elem {
-	case "string":
-		c.N = 3 + r.IntN(len(strUniv)-2)
 	case "bool":
 		c.N = 2
 	default:
-		c.N = 3 + r.IntN(48)
+		c.N = 3 + r.IntN(maxUniverse[c.Elem]-2)
 	}
 	max := c.N
 	if max > 50 {
@@ -268,12 +560,28 @@ func randomCase(r *rand.Rand, out *gal.Out) {
 func main() {
 	seed := flag.Uint64("seed", 1, "PRNG seed")
 	prefix := flag.String("out", "c17", "output prefix")
-	mode := flag.String("mode", "random", "random|corpus")
+	mode := flag.String("mode", "random", "random|corpus|file")
+	in := flag.String("in", "", "file mode: JSON lines of cases (inputs only) to execute")
 	n := flag.Int("n", 300, "number of random cases")
 	flag.Parse()
 	r := gal.NewRand(*seed)
 	out := gal.NewOut(*prefix)
 	defer out.Close()
+	if *mode == "file" {
+		data, err := os.ReadFile(*in)
+		if err != nil {
+			panic(err)
+		}
+		for _, line := range strings.Split(strings.TrimSpace(string(data)), "\n") {
+			var c jcase
+			if err := json.Unmarshal([]byte(line), &c); err != nil {
+				panic(err)
+			}
+			emit(out, jcase{Kind: c.Kind, Elem: c.Elem, Codec: c.Codec, Field: c.Field, N: c.N, Src: c.Src, SrcNil: c.SrcNil,
+				Tgt: c.Tgt, TgtNil: c.TgtNil, PermSeed: c.PermSeed})
+		}
+		return
+	}
 	if *mode == "corpus" {
 		for _, codec := range []string{"json", "yaml"} {
 			for _, field := range []bool{false, true} {
@@ -288,6 +596,18 @@ func main() {
 				emit(out, jcase{Kind: "corpus", Elem: "float", Codec: codec, Field: field, N: 8, Src: []int{0, 1, 2, 3, 4, 5, 6, 7}, Tgt: nil})
 				emit(out, jcase{Kind: "corpus", Elem: "int", Codec: codec, Field: field, N: 6, Src: []int{3, 4}, Tgt: []int{0}})
 				emit(out, jcase{Kind: "corpus", Elem: "struct", Codec: codec, Field: field, N: 6, Src: []int{0, 1, 2, 5}, Tgt: []int{2, 3}})
+				// element types that merge into an existing value: the whole universe, and a pair of
+				// neighbours (one with, one without its optional fields) next to a pre-filled target
+				for _, elem := range mergeable {
+					n := maxUniverse[elem]
+					all := make([]int, n)
+					for i := range all {
+						all[i] = i
+					}
+					emit(out, jcase{Kind: "corpus", Elem: elem, Codec: codec, Field: field, N: n, Src: all, TgtNil: true, PermSeed: 1})
+					emit(out, jcase{Kind: "corpus", Elem: elem, Codec: codec, Field: field, N: n, Src: []int{0, 1}, Tgt: []int{2}, PermSeed: 2})
+					emit(out, jcase{Kind: "corpus", Elem: elem, Codec: codec, Field: field, N: n, Src: []int{1, 2, n - 1}, Tgt: nil, PermSeed: 3})
+				}
 			}
 		}
 		return
